@@ -85,7 +85,9 @@ func DefaultFormatter(buf []byte, n Number, f Format) ([]byte, error) {
 	b.WriteString(toTens(r, f))
 	b.WriteString(toUnits(i, f))
 	if f&FormatLowerCase != 0 {
-		return toLower(b.Bytes()), nil
+		// convert only appended part, passed buffer content must stay untouched
+		toLower(b.Bytes()[len(buf):])
+		return b.Bytes(), nil
 	}
 	return b.Bytes(), nil
 }
